@@ -3,6 +3,7 @@ package PKG
 // Harness runtime, native replay: values come from the solver's model.
 
 import (
+	"context"
 	"encoding/json"
 	"fmt"
 	"reflect"
@@ -103,11 +104,11 @@ func vSymbolicTypeName(zero any, n int) {
 	}
 }
 
-func vAssume(c bool) {
-	if !c {
-		panic(vrtStop{"assume"})
-	}
-}
+// vAssume is a no-op natively: the solver's model satisfies every assumption
+// of the counterexample path by construction.
+func vAssume(c bool) {}
+
+func vRank(s string) int { return 0 }
 
 func vAssert(c bool, label string) {
 	if !c {
@@ -165,3 +166,6 @@ func vrtRun(t *testing.T, vecJSON, paramsJSON string, entry func()) {
 		t.Fatalf("assertion failed")
 	}
 }
+
+// vmCtxExpire is a no-op natively (the harness store returns the deadline error itself).
+func vmCtxExpire(ctx context.Context) {}
